@@ -261,6 +261,13 @@ def run_case(case, res):
             res.count("refused_runs_before")
         else:
             res.count("broken_configuration_was_not_refused(see C18)")
+        # ... and one that is refused late (after markets and agents were built), in an experiment that registered its
+        # own classes under the same names
+        broken2 = copy.deepcopy(pristine)
+        broken2["simulation"]["sessions"][-1]["iterationSteps"] = broken2["simulation"]["sessions"][-1]["iterationSteps"] + 0.5
+        _, _, outb2 = run_digest(dict(case, config=broken2, decoy_classes=True))
+        if outb2.error is not None:
+            res.count("runs_refused_late_with_other_classes_of_the_same_names_before")
     if case.get("individual") and case.get("children"):
         # an earlier, different-but-similar run in the same process (its outcome is irrelevant)
         try:
